@@ -44,7 +44,10 @@ def signatures(maxn):
     return out
 
 
-def make_fn(sig, log, ctx_mode, inj, is_method=False, is_async=False, nullable=False, fielddef=False):
+ALT_NAMES = ['schema', 'copy', 'json', 'dict', 'validate', 'construct']      # parameter names that are attributes of pydantic.BaseModel too
+
+
+def make_fn(sig, log, ctx_mode, inj, is_method=False, is_async=False, nullable=False, fielddef=False, NAMES=NAMES):
     """-> function; parameters: [self] [ctx first] a.. [ctx kw-only] [inj kw-only with default]"""
     parts = []
     if is_method:
@@ -135,6 +138,15 @@ def gen_cases(ctx):
                             yield dict(sig=sig, ctx=ctx_mode, inj=inj, flavour=flavour, validator=validator, nullable=True)
                         if validator == 'pydantic' and flavour == 'function' and any(d for _, d in sig) and len(sig) <= 3 and ctx_mode in ('none', 'name'):
                             yield dict(sig=sig, ctx=ctx_mode, inj=inj, flavour=flavour, validator=validator, fielddef=True)
+                        if flavour == 'function' and validator in ('base', 'pydantic') and 1 <= len(sig) <= 3 and ctx_mode in ('none', 'name') and not inj:
+                            yield dict(sig=sig, ctx=ctx_mode, inj=inj, flavour=flavour, validator=validator, altnames=True)
+                        if flavour == 'function' and validator == 'base' and len(sig) <= 3 and ctx_mode in ('name', 'positional'):
+                            # the same method validated by the JSON-Schema validator (a permissive schema: binding decides), and served by
+                            # an entry point that passes no context object at all (dispatch(text))
+                            yield dict(sig=sig, ctx=ctx_mode, inj=inj, flavour=flavour, validator='jsonschema')
+                            yield dict(sig=sig, ctx=ctx_mode, inj=inj, flavour=flavour, validator=validator, nocontext=True)
+                            if not inj:
+                                yield dict(sig=sig, ctx=ctx_mode, inj=inj, flavour=flavour, validator='pydantic', nocontext=True)
 
 
 NAME_PAIRS = [('user.get', 'user_get'), ('a_b', 'a.b'), ('getUser', 'get_user'), ('user.get', 'user.get_'), ('v1.get', 'v1get'),
@@ -179,11 +191,22 @@ def run_names(case, rec):
 def run_case(case, rec):
     if 'names' in case:
         return run_names(case, rec)
+    if case.get('altnames'):
+        import warnings
+        with warnings.catch_warnings():
+            warnings.simplefilter('ignore')          # pydantic warns about fields shadowing BaseModel attributes; the documents are what counts
+            return _run_case(case, rec)
+    return _run_case(case, rec)
+
+
+def _run_case(case, rec):
     sig = tuple(tuple(x) for x in case['sig'])
     ctx_mode, inj, flavour = case['ctx'], case['inj'], case['flavour']
+    NAMES = ALT_NAMES if case.get('altnames') else globals()['NAMES']
     names = [NAMES[i] for i in range(len(sig))] + (['request'] if ctx_mode == 'positional-misnamed' else [])
     truth_names = sorted(names)
     truth_required = sorted([NAMES[i] for i, (k, d) in enumerate(sig) if not d] + (['request'] if ctx_mode == 'positional-misnamed' else []))
+    ckw = {} if case.get('nocontext') else dict(context='CTX')
     if inj == 'annotated':
         pred = (lambda name, ann, default: Inject in getattr(ann, '__metadata__', ()))
     else:
@@ -195,6 +218,13 @@ def run_case(case, rec):
         d = pjrpc.server.AsyncDispatcher() if disp == 'async' else pjrpc.server.Dispatcher()
         if vkind == 'base':
             validator = BaseValidator(exclude_param=pred) if inj else None
+        elif vkind == 'jsonschema':
+            from pjrpc.server.validators.jsonschema import JsonSchemaValidator
+            _js = JsonSchemaValidator(exclude_param=pred if inj else None)
+
+            class _V:
+                validate = staticmethod(lambda fn: _js.validate(schema={'type': 'object'})(fn))
+            validator = _V
         else:
             # ONE validator object per configuration serves every program of this process (all handlers are called 'f')
             vkey = (vkind, inj)
@@ -216,7 +246,7 @@ def run_case(case, rec):
             V.f = fn
             d.registry.view(V, context='context')
         else:
-            fn, src = make_fn(sig, log, ctx_mode, inj, is_async=(disp == 'async'), nullable=bool(case.get('nullable')), fielddef=bool(case.get('fielddef')))
+            fn, src = make_fn(sig, log, ctx_mode, inj, is_async=(disp == 'async'), nullable=bool(case.get('nullable')), fielddef=bool(case.get('fielddef')), NAMES=NAMES)
             if validator:
                 fn = validator.validate(fn)
             kw = {}
@@ -277,11 +307,11 @@ def run_case(case, rec):
                     if disp == 'async':
                         loop = VLoop()
                         try:
-                            resp = json.loads(loop.run(d.dispatch(text, context='CTX'))[0])
+                            resp = json.loads(loop.run(d.dispatch(text, **ckw))[0])
                         finally:
                             loop.close()
                     else:
-                        resp = json.loads(d.dispatch(text, context='CTX')[0])
+                        resp = json.loads(d.dispatch(text, **ckw)[0])
                 except Exception as e:   # noqa
                     resp = {'raised': '%s: %s' % (type(e).__name__, e)}
                 rec.transitions += 1
